@@ -77,6 +77,46 @@ fn ref_span_lines(p: &str, s: usize, e: usize) -> (usize, usize) {
     (st, ref_line_end(p, last.min(p.len())))
 }
 
+/// All (start, end) pairs of boundaries for short texts; for long ones a deterministic sample:
+/// every pair among the first and last dozen boundaries, every boundary with the text's start
+/// and end, neighbours, and a pseudo-random remainder derived from the text length.
+fn span_pairs(bs: &[usize]) -> Vec<(usize, usize)> {
+    let n = bs.len();
+    let mut v = vec![];
+    if n <= 48 {
+        for i in 0..n {
+            for j in i..n {
+                v.push((bs[i], bs[j]));
+            }
+        }
+        return v;
+    }
+    let edge: Vec<usize> = (0..12).chain(n - 12..n).collect();
+    for (a, &i) in edge.iter().enumerate() {
+        for &j in &edge[a..] {
+            v.push((bs[i], bs[j]));
+        }
+    }
+    for i in 0..n {
+        v.push((bs[0], bs[i]));
+        v.push((bs[i], bs[n - 1]));
+        v.push((bs[i], bs[i]));
+        if i + 1 < n {
+            v.push((bs[i], bs[i + 1]));
+        }
+        if i + 3 < n {
+            v.push((bs[i], bs[i + 3]));
+        }
+    }
+    let mut x = n as u64 * 0x9E3779B97F4A7C15;
+    for _ in 0..400 {
+        let a = (crate::rng::splitmix(&mut x) % n as u64) as usize;
+        let b = (crate::rng::splitmix(&mut x) % n as u64) as usize;
+        v.push((bs[a.min(b)], bs[a.max(b)]));
+    }
+    v
+}
+
 fn boundaries(p: &str) -> Vec<usize> {
     let mut v: Vec<usize> = p.char_indices().map(|(i, _)| i).collect();
     v.push(p.len());
@@ -154,8 +194,8 @@ pub fn execute(sc: &NScenario, full_sweep_every_feed: bool) -> NReport {
         }
         // spans
         if last || full_sweep_every_feed {
-            for (i, &s) in bs.iter().enumerate() {
-                for &e in &bs[i..] {
+            for (s, e) in span_pairs(&bs) {
+                {
                     rep.queries += 1;
                     let exp = ref_span_lines(p, s, e);
                     let got = catch_unwind(AssertUnwindSafe(|| cache.span_line_bytes(Span::new(s, e))));
@@ -187,7 +227,19 @@ pub fn execute(sc: &NScenario, full_sweep_every_feed: bool) -> NReport {
     if rep.findings.iter().all(|f| f.class != "feed-panic") {
         let lexer: LRNonStreamingLexer<DefaultLexerTypes<u32>> = LRNonStreamingLexer::new(p, vec![], cache);
         let bs = boundaries(p);
-        for (i, &s) in bs.iter().enumerate() {
+        let dpath = std::path::PathBuf::from("t");
+        let dfmt = SpannedDiagnosticFormatter::new(p, &dpath);
+        for &s in bs.iter() {
+            // the "msg at path:line:col" header of diagnostics
+            rep.queries += 1;
+            let exp = format!("m at t:{}:{}", ref_line(p, s), ref_col(p, s));
+            match catch_unwind(AssertUnwindSafe(|| dfmt.file_location_msg("m", Some(Span::new(s, s))))) {
+                Ok(m) if m == exp => {}
+                Ok(m) => add(&mut rep, "diagnostic-location", format!("file_location_msg for byte {s}: {:?}, expected {:?}; text {:?}", m, exp, p), None),
+                Err(_) => add(&mut rep, "diagnostic-location-panic", format!("file_location_msg for byte {s} panicked; text {:?}", p), None),
+            }
+        }
+        for &s in bs.iter() {
             // pretty-printed error position
             rep.queries += 1;
             let e: LexParseError<u32, DefaultLexerTypes<u32>> = LexParseError::LexError(LRLexError::new(Span::new(s, s)));
@@ -197,7 +249,9 @@ pub fn execute(sc: &NScenario, full_sweep_every_feed: bool) -> NReport {
                 Ok(m) => add(&mut rep, "pp-position", format!("pp for an error at byte {s}: {:?}, expected {:?}; text {:?}", m, exp, p), None),
                 Err(_) => add(&mut rep, "pp-panic", format!("pp for an error at byte {s} panicked; text {:?}", p), None),
             }
-            for &e in &bs[i..] {
+        }
+        for (s, e) in span_pairs(&bs) {
+            {
                 rep.queries += 2;
                 let sp = Span::new(s, e);
                 let exp_lc = ((ref_line(p, s), ref_col(p, s)), (ref_line(p, e), ref_col(p, e)));
@@ -324,7 +378,7 @@ fn real_lexer_checks(rep: &mut NReport, p: &str) {
 /// not end at a line start (where the extent is the known finding), every covered line is
 /// echoed as `<line>| <text>` and underlined from the column of the span's first byte on it.
 fn underline_checks(rep: &mut NReport, p: &str) {
-    if !p.is_ascii() || p.contains('\r') || p.is_empty() {
+    if !p.is_ascii() || p.contains('\r') || p.is_empty() || p.len() > 64 {
         return;
     }
     let path = std::path::PathBuf::from("t");
@@ -386,8 +440,12 @@ const ALPHABET: &[&str] = &["a", "b", " ", "\n", "\n", "\r\n", "\r", "é", "❤"
 
 pub fn generate(r: &mut Rng, max_bytes: usize) -> NScenario {
     let mut text = String::new();
-    let target = r.below(max_bytes as u64 + 1) as usize;
-    let nl_heavy = r.chance(30);
+    // size is varied per history: one text in a hundred is long (up to 700 bytes, newline-heavy,
+    // so that caches with several hundred line starts occur); spans are sampled there
+    let long = r.chance(1);
+    let max_bytes = if long { 100 + r.below(600) as usize } else { max_bytes };
+    let target = if long { max_bytes } else { r.below(max_bytes as u64 + 1) as usize };
+    let nl_heavy = long || r.chance(30);
     while text.len() < target {
         let s = if nl_heavy && r.chance(40) { "\n" } else { *r.pick(ALPHABET) };
         if text.len() + s.len() > max_bytes {
@@ -540,7 +598,7 @@ pub fn check_main(tier: &str) -> i32 {
         }
     };
     let seed = seed_from_env();
-    let count: u64 = std::env::var("VERIF_N_COUNT").ok().and_then(|s| s.parse().ok()).unwrap_or(if tier == "thorough" { 20_000_000 } else { 600_000 });
+    let count: u64 = std::env::var("VERIF_N_COUNT").ok().and_then(|s| s.parse().ok()).unwrap_or(if tier == "thorough" { 12_000_000 } else { 400_000 });
     let max_bytes = if tier == "thorough" { 40 } else { 28 };
     let w = ncpu() as u64;
     std::panic::set_hook(Box::new(|_| {}));
